@@ -92,4 +92,35 @@ def removed (F : Facts) (g : VGraph) (cutoff : Int) (p : Nat) : Bool :=
   !(g.children p).isEmpty && !(F.vacuumChecksOwnAge && decide (g.created p ≥ cutoff)) &&
   (g.children p).all fun c => !((tooNew F (g.created c) cutoff).getD true)
 
+/-! ### the order in which the chosen version objects are deleted (F93)
+
+The next vacuum finds the history by walking back from the current version through `parents`.
+`supersededFirst` is the depth-first walk of the source: a version is emitted after the chosen
+versions it supersedes.  Fuel bounds the depth (a version graph has no cycles: names are hashes). -/
+
+/-- visit `v`: first the chosen parents not yet emitted, then `v` itself; `acc` = emitted so far -/
+def visitFirst (g : VGraph) (chosen : List Nat) : Nat → List Nat → Nat → List Nat
+  | 0, acc, v => if acc.contains v then acc else acc ++ [v]
+  | fuel + 1, acc, v =>
+    if acc.contains v then acc
+    else
+      let acc' := ((g.parents v).filter chosen.contains).foldl (visitFirst g chosen fuel) acc
+      if acc'.contains v then acc' else acc' ++ [v]
+
+/-- the deletion order for the chosen versions; with the fact off, the order they came in (a Go
+    map's: any) -/
+def deletionOrder (F : Facts) (g : VGraph) (chosen : List Nat) : List Nat :=
+  if F.vacuumDeletesSupersededFirst then chosen.foldl (visitFirst g chosen g.versions.length) [] else chosen
+
+/-- what makes an order safe to be interrupted in: at every point of the deletion loop the set of
+    version objects already deleted is closed under "supersedes" (among the chosen ones) -/
+def PrefixClosed (g : VGraph) (chosen order : List Nat) : Prop :=
+  ∀ k c, c ∈ order.take k → ∀ p, p ∈ g.parents c → p ∈ chosen → p ∈ order.take k
+
+/-- a walk back through the history: each version is followed by one it supersedes -/
+def Walk (g : VGraph) : List Nat → Prop
+  | [] => True
+  | [_] => True
+  | a :: b :: rest => b ∈ g.parents a ∧ Walk g (b :: rest)
+
 end S3db.Vacuum
